@@ -60,6 +60,9 @@ class PiPackConfig(SSEConfig):
                                      "ske"],
                                     config_dict)
 
+        # B identifiers go into one block: with B < 1 no block is ever written and every search comes back empty
+        SSEConfig.check_param_positive_int(["param_B"], config_dict)
+
         self.param_lambda = config_dict.get("param_lambda")
         self.param_B = config_dict.get("param_B")
         self.prf_f_output_length = config_dict.get("prf_f_output_length")
